@@ -1432,86 +1432,108 @@ func ruleClauseIdentity(c *Ctx, r *Report) {
 		r.undecided(rule, "anchor:identity-test", c.Pos(retract.Pos()), desc, "retract/1 calls no function of two clauses")
 		return
 	}
-	readsField := func(v ssa.Value, field string) bool {
-		found := false
-		dataSlice(v, func(x ssa.Value) bool {
-			switch y := x.(type) {
-			case *ssa.UnOp:
-				if fa, ok := y.X.(*ssa.FieldAddr); ok && y.Op == token.MUL && fieldName(fa) == field && isEngNamed(deref(fa.X.Type()), "clause") {
-					found = true
-				}
-			case *ssa.Call:
-				// id(a.raw): dataSlice walks the arguments itself
-			}
-			return !found
-		})
-		return found
+	// (after seed C10h) ... and every other function of the engine that answers a yes/no question about two
+	// stored clauses (a "same source" test written next to the identity test repeats its old mistake)
+	tests := []*ssa.Function{same}
+	for _, fn := range c.LibFuncs() {
+		if fn == same || fn.Parent() != nil || funcPkg(fn) != c.Engine || fn.Signature.Recv() != nil || fn.Signature.Params().Len() != 2 || fn.Signature.Results().Len() != 1 {
+			continue
+		}
+		if !isEngNamed(deref(fn.Signature.Params().At(0).Type()), "clause") || !isEngNamed(deref(fn.Signature.Params().At(1).Type()), "clause") {
+			continue
+		}
+		if b, ok := fn.Signature.Results().At(0).Type().Underlying().(*types.Basic); !ok || b.Kind() != types.Bool {
+			continue
+		}
+		tests = append(tests, fn)
 	}
-	n := 0
-	eachInstr(same, func(in ssa.Instruction) {
-		ret, ok := in.(*ssa.Return)
-		if !ok || len(ret.Results) != 1 {
-			return
-		}
-		n++
-		key := fmt.Sprintf("%s/return#%d", fname(same), n)
-		if !readsField(ret.Results[0], "raw") {
-			r.ok(rule, key, c.at(ret), desc, "the value does not depend on the clause's term", true)
-			return
-		}
-		noCode := false
-		for f := range c.factsAt(ret.Block()) {
-			x, op, k, ok := cmpConst(f.cond)
-			if !ok || k != 0 {
-				continue
-			}
-			if _, isLen := lenOfField(x, "clause", "bytecode"); !isLen {
-				continue
-			}
-			empty := (op == token.EQL && f.pol) || ((op == token.GTR || op == token.NEQ) && !f.pol)
-			if empty {
-				noCode = true
-			}
-		}
-		// `a && b` false: neither conjunct is known false on its own; accept the return that is NOT dominated by
-		// "both lengths are positive"
-		if !noCode {
-			bothPositive := 0
-			for f := range c.factsAt(ret.Block()) {
-				x, op, k, ok := cmpConst(f.cond)
-				if ok && k == 0 {
-					if _, isLen := lenOfField(x, "clause", "bytecode"); isLen && ((op == token.GTR || op == token.NEQ) && f.pol) {
-						bothPositive++
+	for _, same := range tests {
+		same := same
+		func() {
+			readsField := func(v ssa.Value, field string) bool {
+				found := false
+				dataSlice(v, func(x ssa.Value) bool {
+					switch y := x.(type) {
+					case *ssa.UnOp:
+						if fa, ok := y.X.(*ssa.FieldAddr); ok && y.Op == token.MUL && fieldName(fa) == field && isEngNamed(deref(fa.X.Type()), "clause") {
+							found = true
+						}
+					case *ssa.Call:
+						// id(a.raw): dataSlice walks the arguments itself
 					}
-				}
+					return !found
+				})
+				return found
 			}
-			if bothPositive < 2 {
-				// reached also when a length is zero; is it reachable when both are positive?  cut the edges that
-				// say "positive" is false and see whether the return is still reachable only through them
-				reach := reachableAvoiding(same, ret.Block(), func(from *ssa.BasicBlock, i int, cond ssa.Value) bool {
-					x, op, k, ok := cmpConst(cond)
+			n := 0
+			eachInstr(same, func(in ssa.Instruction) {
+				ret, ok := in.(*ssa.Return)
+				if !ok || len(ret.Results) != 1 {
+					return
+				}
+				n++
+				key := fmt.Sprintf("%s/return#%d", fname(same), n)
+				if !readsField(ret.Results[0], "raw") {
+					r.ok(rule, key, c.at(ret), desc, "the value does not depend on the clause's term", true)
+					return
+				}
+				noCode := false
+				for f := range c.factsAt(ret.Block()) {
+					x, op, k, ok := cmpConst(f.cond)
 					if !ok || k != 0 {
-						return false
+						continue
 					}
 					if _, isLen := lenOfField(x, "clause", "bytecode"); !isLen {
-						return false
+						continue
 					}
-					// cut the edge on which this length is zero
-					return ((op == token.GTR || op == token.NEQ) && i == 1) || (op == token.EQL && i == 0)
-				})
-				noCode = !reach
+					empty := (op == token.EQL && f.pol) || ((op == token.GTR || op == token.NEQ) && !f.pol)
+					if empty {
+						noCode = true
+					}
+				}
+				// `a && b` false: neither conjunct is known false on its own; accept the return that is NOT dominated by
+				// "both lengths are positive"
+				if !noCode {
+					bothPositive := 0
+					for f := range c.factsAt(ret.Block()) {
+						x, op, k, ok := cmpConst(f.cond)
+						if ok && k == 0 {
+							if _, isLen := lenOfField(x, "clause", "bytecode"); isLen && ((op == token.GTR || op == token.NEQ) && f.pol) {
+								bothPositive++
+							}
+						}
+					}
+					if bothPositive < 2 {
+						// reached also when a length is zero; is it reachable when both are positive?  cut the edges that
+						// say "positive" is false and see whether the return is still reachable only through them
+						reach := reachableAvoiding(same, ret.Block(), func(from *ssa.BasicBlock, i int, cond ssa.Value) bool {
+							x, op, k, ok := cmpConst(cond)
+							if !ok || k != 0 {
+								return false
+							}
+							if _, isLen := lenOfField(x, "clause", "bytecode"); !isLen {
+								return false
+							}
+							// cut the edge on which this length is zero
+							return ((op == token.GTR || op == token.NEQ) && i == 1) || (op == token.EQL && i == 0)
+						})
+						noCode = !reach
+					}
+				}
+				if noCode {
+					r.ok(rule, key, c.at(ret), desc, "the term is consulted only where a clause has no code", true)
+				} else {
+					r.bad(rule, key, c.at(ret), desc, "the answer is computed from the clauses' terms although both have code: `foo. foo.` are one clause to this test, so a retract/1 that was overtaken removes the wrong copy or counts one removal twice")
+				}
+			})
+			if n == 0 {
+				if same == tests[0] { // a further function of two clauses that never returns (a retired helper) has nothing to check
+					r.undecided(rule, "anchor:returns", c.Pos(same.Pos()), desc, "the identity test has no return")
+				}
 			}
-		}
-		if noCode {
-			r.ok(rule, key, c.at(ret), desc, "the term is consulted only where a clause has no code", true)
-		} else {
-			r.bad(rule, key, c.at(ret), desc, "the answer is computed from the clauses' terms although both have code: `foo. foo.` are one clause to this test, so a retract/1 that was overtaken removes the wrong copy or counts one removal twice")
-		}
-	})
-	if n == 0 {
-		r.undecided(rule, "anchor:returns", c.Pos(same.Pos()), desc, "the identity test has no return")
+			r.analysed(rule, fname(same))
+		}()
 	}
-	r.analysed(rule, fname(same))
 }
 
 // ---------------------------------------------------------------------------
